@@ -294,6 +294,7 @@ register(Prop('C05', 'Mqtt.Properties.C05', ['broker'],
               runs=[Run('broker-iso', quick=9000, thorough=60000, seeds_thorough=8),
                     Run('broker-iso-sweep', quick=2500, thorough=30000, seeds_thorough=2)],
               oracle=broker_oracle, nontrivial=broker_nontrivial, spec_total=False,
-              classes={'empty_level': has_empty_level, 'dollar_level': has_dollar_level, 'cb_retain_forward': cb_retain_forward},
+              unspecified=overlap_episode,
+              classes={'empty_level': has_empty_level, 'cb_retain_forward': cb_retain_forward},
               assumptions=C05_ASSUMPTIONS, trusted=COMMON_TRUSTED + [
                   "regenerated facts: framing limits (l > 4, cnt from 2 to 5), ring size, deferred recover in handleConnection/processor, non-fatal processIncoming errors do not end the processor, packet-type and codec tables"]))
